@@ -114,11 +114,12 @@ def grids(draw, nmin=4, nmax=12, umin=1.0, umax=5.0, max_degree=5):
         g = [xmin] + [xmin ** (1 - t) for t in ts] + [1.0]
     g[-1] = 1.0
     g = sorted(set(float(f"{x:.12g}") for x in g))
-    # remove near-duplicates (eko refuses duplicates; nearly coinciding nodes make Lagrange
-    # polynomials explode, which no real grid has)
+    # remove near-duplicates (eko refuses duplicates; nearly coinciding nodes make the monomial coefficients of eko's basis
+    # explode - 3e7 for nodes 0.13 % apart, evaluation error 2e-8, false alarm of C02 at seed 11 - which no real grid has):
+    # neighbouring nodes are at least 5 % apart
     out = [g[0]]
     for x in g[1:]:
-        if x / out[-1] > 1.0 + 1e-3:
+        if x / out[-1] > 1.05:
             out.append(x)
     if out[-1] != 1.0:
         out[-1] = 1.0
